@@ -223,7 +223,15 @@ fn generated(seed: u64, i: u64) -> Scenario {
 
 fn eval(id: &str, sc: &Scenario, rep: &mut Report) {
     rep.begin_with(id, &json!({"scenario": sc.name}));
-    let stream = SparseStream::new(sc.start_pos);
+    let mut stream = SparseStream::new(sc.start_pos);
+    // half of the scenarios mux into a sink that takes small writes (header fields, the size
+    // patches of write_end) only 1, 3 or 7 bytes at a time - legal for any Write; the output
+    // must be the same valid file (the 64-bit patches are reachable only here, above 4 GiB)
+    let short = if sc.name == format!("mdat_size={}", 1u64 << 32) { 3 } else { [0usize, 1, 0, 3, 0, 7, 0, 0][(hash_str(&sc.name) % 8) as usize] };
+    stream.short_small_writes = short;
+    if short > 0 {
+        rep.add("scenarios_muxed_into_a_short_writing_sink", 1);
+    }
     let run = run_history(&sc.h, stream, |_, _, _, _| {});
     let mut fails: Fails = Vec::new();
     if !run.start.is_ok() {
